@@ -10,7 +10,12 @@ recomputed by vm_compute and must agree; an independent oracle decides the prope
 (asyncio: tasks / blocked reads left behind, and that the following operation receives its own output).
 Histories (`timeout-history`): 2-5 decorated calls one after the other on ONE transport + channel object, each from the
 main thread or a fresh non-main thread (both orders), judged call by call as if each were the only one; the model's
-run_hist (mechanism of call n = select_mech of call n's context) is recomputed on every history."""
+run_hist (mechanism of call n = select_mech of call n's context) is recomputed on every history.
+Nested limits: a read that stalls inside a channel operation must end with ScrapliTimeout no later than
+min(timeout_transport counted from the start of that read, what is left of timeout_ops) (+ SLACK); `limit pair` cases
+run every mechanism under every pair (transport < ops, = ops, > ops, either one 0, both 0).  When model and
+implementation differ on a case the oracle accepted, the search first re-runs that case and its neighbours over the
+pairs of limits (far apart) under the oracle and reports what fails with its replay."""
 import json
 import os
 
@@ -87,20 +92,54 @@ def script_duration(case):
     return d
 
 
+def inner_limit(case):
+    """timeout_transport as it applies to ONE transport read made by a channel operation (seconds, 0 = not at all):
+    the read must be decorated, and the asyncio login loops give up a read after their own poll interval"""
+    if case["level"] != "op" or not case["wrapped"] or not case["t_tr"]:
+        return 0.0
+    p = poll_ms(case)
+    if p and case["t_tr"] * 1000 >= p:
+        return 0.0
+    return case["t_tr"]
+
+
 def limit_of(case):
-    """the configured limit that applies to the call (seconds), 0 = none; outer first"""
+    """the instant (seconds after the start of the call, 0 = never) by which a call that runs into a silent device must
+    be over: a transport read / a channel method by its own limit; a channel operation over a decorated transport read by
+    whichever of the two limits falls due first - timeout_ops counted from the start of the operation, timeout_transport
+    from the start of the read that stalls (what the script needs before it goes silent comes first), i.e. the stalled
+    read lasts at most min(timeout_transport, what is left of timeout_ops)"""
     if case["level"] in ("tleaf", "real"):
         return case["t_tr"]
     if case["level"] == "cleaf":
         return case["t_ops"]
+    due = []
     if case["t_ops"]:
-        return case["t_ops"]
-    if case["wrapped"] and case["t_tr"]:
-        p = poll_ms(case)
-        if p and case["t_tr"] * 1000 >= p:
-            return 0.0
-        return case["t_tr"]
-    return 0.0
+        due.append(case["t_ops"])
+    if inner_limit(case):
+        due.append(script_duration(case) + inner_limit(case))
+    return min(due) if due else 0.0
+
+
+def limit_text(case):
+    """which of the two limits of a channel operation over a decorated read it is (for the report)"""
+    if case["level"] != "op" or not (case["t_ops"] and inner_limit(case)):
+        return ""
+    return " (a read that stalls %.2f s into the operation: min(timeout_transport %.3f s, what is left of timeout_ops %.3f s))" % (
+        script_duration(case), case["t_tr"], case["t_ops"])
+
+
+def may_time_out(case):
+    """a script that lets the call finish: is a timeout nevertheless legitimate (the call, or one of its reads, is slower
+    than the limit that applies to it)?"""
+    if case["level"] != "op":
+        lim = limit_of(case)
+        return bool(lim and script_duration(case) >= lim)
+    if case["t_ops"] and script_duration(case) >= case["t_ops"]:
+        return True
+    ti = inner_limit(case)
+    per_read = [s[1] for s in case["steps"] if s[0] in ("ret", "exc", "ddata")]      # (the login loops sleep BETWEEN reads)
+    return bool(ti and per_read and max(per_read) >= ti)
 
 
 def default_watchdog(case):
@@ -132,7 +171,7 @@ def oracle(case, obs):
             elif not is_timeout:
                 f.append(("outcome", "stalled call ended with %s instead of ScrapliTimeout" % (out.get("cls") or out.get("kind"))))
             elif obs["elapsed"] > lim + SLACK:
-                f.append(("timing", "ScrapliTimeout after %.2f s for a limit of %.3f s" % (obs["elapsed"], lim)))
+                f.append(("timing", "ScrapliTimeout after %.2f s for a limit of %.3f s%s" % (obs["elapsed"], lim, limit_text(case))))
             if is_timeout and not obs["hang"] and obs["alive"] != bool(case["no_term"]):
                 f.append(("state", "transport alive=%s after the timeout with NO_TERMINATE_ON_TIMEOUT=%s" % (obs["alive"], case["no_term"])))
     elif stall and not lim:
@@ -144,8 +183,7 @@ def oracle(case, obs):
             f.append(("state", "transport closed although no limit applies"))
     else:
         # the script lets the call finish: a timeout is legitimate only if the call is slower than the limit
-        slow = script_duration(case)
-        if not (lim and slow >= lim):
+        if not may_time_out(case):
             want = "Boom" if lk == "exc" else None
             if want and out.get("cls") != want:
                 f.append(("outcome", "the call's own exception became %r" % (out,)))
@@ -740,6 +778,82 @@ def gen_nested_async_case(rng):
     return c
 
 
+# pairs of limits of a channel operation over a decorated transport read: (name, timeout_ops, timeout_transport).  The two
+# limits are either >= 1.9 s apart or equal; "tr=ops" is the shipped default (both 30 s there)
+LIMIT_PAIRS = [("tr<ops", 2.0, 0.1), ("tr=ops", 0.1, 0.1), ("tr>ops", 0.1, 2.0), ("tr=0", 0.1, 0.0), ("ops=0", 0.0, 0.1),
+               ("both=0", 0.0, 0.0)]
+# the mechanism of the operation (and with it that of the read made inside it)
+PAIR_MECHS = [("sync", ("signal", dict(cls="ScriptedTransport")), None),
+              ("sync", ("thread-class-system", dict(cls="SystemTransport")), None),
+              ("sync", ("thread-non-main", dict(cls="ScriptedTransport", main_thread=False)), None),
+              ("async", ("asyncio", dict(cls="ScriptedAsyncTransport")), "scripted"),
+              ("async", ("asyncio", dict(cls="ScriptedAsyncTransport")), "asynctelnet"),
+              ("async", ("asyncio", dict(cls="ScriptedAsyncTransport")), "asyncssh")]
+
+
+def pair_case(stack, mech, transport, pair, op, k, kind="stall_closed", no_term=False, lock=False, follow=None):
+    """a channel operation that runs into a silent device at stall point k with the given pair of limits"""
+    pname, to, ti = pair
+    mname, mkw = mech
+    c = mk(stack=stack, level="op", op=op, t_ops=to, t_tr=ti, wrapped=True, no_term=no_term, lock=lock, mech=mname,
+           prev_handler="user", prev_timer=[50.0, 0.0], pair=pname, **mkw)
+    if stack == "async" and op == "channel_authenticate_telnet" and to and ti and ti < to:
+        c["t_tr"] = ti = to / 40          # this login loop gives a read up after timeout_ops / 20: stay below that
+    c["steps"] = [("data", x.hex()) for x in impl.STREAMS[op][:k]] + [(kind,)]
+    c["stall_point"] = impl.STALL_LABELS[op][k]
+    if mech_of(c) == "thread" and limit_of(c):
+        c["no_term"] = False              # (known region / environment assumption, as in the other generators)
+        c["steps"][-1] = ("stall_closed",)
+    if transport and transport != "scripted":
+        over_real_transport(c, transport)
+    if stack == "async" and follow:
+        c["follow"] = follow
+    if mech_of(c) == "thread" and to and ti == to:
+        c["oracle_only"] = "both limits fall due at the same instant in two threads: which message wins is a race"
+    c["label"] = "limit pair %s (ops=%s tr=%s) %s %s k=%d %s nt=%s" % (pname, to, c["t_tr"], c["mech"], op, k, c["steps"][-1][0], c["no_term"])
+    if c.get("follow"):
+        c["label"] += " then %s" % c["follow"]
+    return c
+
+
+def limit_pair_cases(rng, full=False):
+    """every mechanism x every pair of limits (transport < ops, = ops, > ops, either one 0, both 0), the device going
+    silent inside the operation; quick: operation kind, stall point, stall kind, NO_TERMINATE and the lock rotate over the
+    grid (where the rotation starts depends on the seed), thorough: x every operation kind"""
+    ops = sorted(impl.OPS)
+    off = rng.randrange(1000)
+    out = []
+    for mi, (stack, mech, transport) in enumerate(PAIR_MECHS):
+        for pi, pair in enumerate(LIMIT_PAIRS):
+            if pair[0] == "both=0" and not full and (mi + off) % 3:
+                continue                  # (quick: no limit at all under two of the six, the random operations have more)
+            for oi in (range(len(ops)) if full else [0]):
+                n = off + mi * 7 + pi * 3 + oi
+                for shift in range(len(ops)):
+                    op = ops[(oi if full else n) % len(ops) - shift]
+                    k = (n // 2) % len(impl.STREAMS[op])
+                    c = pair_case(stack, mech, transport, pair, op, k, kind=("stall", "stall_closed")[n % 2],
+                                  no_term=bool((n // 3) % 2), lock=bool((n // 5) % 2), follow=sorted(FOLLOW_EXPECT)[n % 3])
+                    if in_known_region(c) != SIG_ATELNET0:      # (left to C06: take the neighbouring operation kind)
+                        break
+                if full and shift:
+                    continue
+                out.append(c)
+    return out
+
+
+def slow_read_cases():
+    """reads that take a while (each well within timeout_transport), then silence: the stalled read is limited from ITS
+    start by timeout_transport, the operation by timeout_ops - whichever is due first (the inner limit per read)"""
+    out = []
+    for stack, mech, transport in (PAIR_MECHS[0], PAIR_MECHS[1], PAIR_MECHS[3]):
+        c = mk(stack=stack, level="op", op="get_prompt", t_ops=2.5, t_tr=0.25, wrapped=True, mech=mech[0], pair="tr<ops",
+               steps=[("ddata", 0.1, b"x".hex())] * 3 + [("stall_closed",)], stall_point="before prompt (after slow reads)",
+               label="limit pair tr<ops after 3 slow reads %s" % mech[0], **mech[1])
+        out.append(c)
+    return out
+
+
 def gen_real_case(rng, real=None):
     real = real or rng.choice(["system", "telnet", "asynctelnet", "asyncssh"])
     T = rng.choice(TIMEOUTS + [0.0])
@@ -906,9 +1020,52 @@ def _known_replays(rep, dist):
             rep.notes.append("known finding %s no longer reproduces" % sig)
 
 
-def _search(rep, rng, dist, n):
-    """an obligation or the correspondence broke: look for a failing input of the property itself"""
+def neighbours(case):
+    """the cases next to one on which model and implementation differ: the same call (mechanism, operation, stall point,
+    settings) under every pair of limits, the limits far apart - where a limit that is not honoured shows on the clock"""
+    out = []
+    if case["level"] == "op" and last_kind(case) in ("stall", "stall_closed"):
+        for pname, to, ti in LIMIT_PAIRS:
+            c = dict(case, t_ops=to, t_tr=ti if case["wrapped"] else 0.0, pair=pname, watchdog=None,
+                     label="%s [limits changed to pair %s: ops=%s tr=%s]" % (case["label"], pname, to, ti))
+            if c["stack"] == "async" and c["op"] == "channel_authenticate_telnet" and to and ti and ti < to:
+                c["t_tr"] = to / 40
+            if mech_of(c) == "thread" and limit_of(c):
+                c["no_term"] = False
+                c["steps"] = list(c["steps"][:-1]) + [("stall_closed",)]
+            out.append(c)
+    elif case["level"] in ("tleaf", "cleaf", "real"):
+        key = "t_ops" if case["level"] == "cleaf" else "t_tr"
+        for T in (0.1, 0.0):
+            if case[key] != T:
+                out.append(dict(case, watchdog=None, label="%s [limit changed to %s]" % (case["label"], T), **{key: T}))
+    return [c for c in out if not in_known_region(c) and not (mech_of(c) == "thread" and last_kind(c) == "stall" and limit_of(c))]
+
+
+def _search(rep, rng, dist, n, near=()):
+    """an obligation or the correspondence broke: look for a failing input of the property itself - first on the cases
+    on which model and implementation differ (run again under the oracle, then their neighbours over the pairs of limits),
+    then over the enumerated pool"""
     found = 0
+    seen = set()
+    for c0 in list(near)[:6]:
+        for c in [dict(c0, watchdog=None)] + neighbours(c0):
+            key = json.dumps({k: v for k, v in c.items() if k not in ("label", "watchdog")}, sort_keys=True)
+            if key in seen:
+                continue
+            seen.add(key)
+            case, obs, fails = observe(c)
+            rep.case(("search-near", key), nontrivial=False)
+            dist["search_cases"] += 1
+            dist["search_near_disagreement"] = dist.get("search_near_disagreement", 0) + 1
+            if fails:
+                rep.violation("search next to a model disagreement: %s: %s" % (case["label"], "; ".join(t for _, t in fails)),
+                              _replay_dict(case, obs, fails), signature=signature_of(case, fails))
+                found += 1
+                if found >= 3:
+                    return found
+    if found:
+        return found
     pool = []
     for stack, mechs in (("sync", SYNC_MECHS), ("async", ASYNC_MECHS)):
         for mname, mkw in mechs:
@@ -982,14 +1139,16 @@ def run(rep):
             "prev_timer": {"none": 0, "pending": 0, "pending+interval": 0, "due-during-call": 0}, "stall_points": {},
             "nesting": {}, "hang_cases": 0, "known_replayed": {}, "runtime": {}, "search_cases": 0, "lock_on": 0,
             "asyncio_nested_outer_first": {"no_terminate on": 0, "no_terminate off": 0}, "asyncio_over_real_transport": {},
-            "asyncio_follow_up_run": {}, "asyncio_task_observed": 0,
+            "asyncio_follow_up_run": {}, "asyncio_task_observed": 0, "limit_pairs_stalled_op": {}, "oracle_only": 0,
             "histories": {"count": 0, "calls": 0, "by_length": {}, "by_class": {}, "first_thread": {"main": 0, "worker": 0},
                           "calls_by_mechanism": {}, "stalls": 0, "thread_switches": {}, "stall_right_after_switch": {},
                           "mechanism_changes_on_one_object": 0, "reopened_after_timeout": 0}}
     _known_replays(rep, dist)
     _runtime_suite(rep, dist)
 
-    cases = corpus() + slow_cases()
+    # every mechanism x every pair of limits of a channel operation over a decorated read (transport < ops, = ops, > ops,
+    # either one 0), and a stall after reads that took a while
+    cases = corpus() + slow_cases() + limit_pair_cases(rng, full=thorough) + slow_read_cases()
     n_leaf, n_op, n_real, n_nested = (420, 420, 80, 120) if thorough else (52, 56, 10, 12)
     for T in (0.0, 0.0, 0.05, 0.3):
         cases.append(gen_leaf_case(rng, boundary=T))
@@ -1018,7 +1177,8 @@ def run(rep):
             continue
         case, obs, fails = observe(c)
         done.append((case, obs, fails))
-        terms.append(case_term(case, obs))
+        # (a tie of the two limits in two threads: judged by the oracle only, the model has no race)
+        terms.append(None if case.get("oracle_only") else case_term(case, obs))
         m = mech_of(case)
         lk = last_kind(case) or "empty"
         nontrivial = lk in ("stall", "stall_closed") or any(s[0] in ("ret", "exc") and s[1] for s in case["steps"])
@@ -1048,6 +1208,12 @@ def run(rep):
                 fk = obs["follow"]["op"]
                 dist["asyncio_follow_up_run"][fk] = dist["asyncio_follow_up_run"].get(fk, 0) + 1
         dist["lock_on"] += 1 if case["lock"] else 0
+        if case["level"] == "op" and case["wrapped"] and lk in ("stall", "stall_closed"):
+            rel = ("both=0" if not (case["t_ops"] or case["t_tr"]) else "tr=0" if not case["t_tr"] else "ops=0" if not case["t_ops"]
+                   else "tr<ops" if case["t_tr"] < case["t_ops"] else "tr=ops" if case["t_tr"] == case["t_ops"] else "tr>ops")
+            d = dist["limit_pairs_stalled_op"].setdefault(rel, {})
+            d[m] = d.get(m, 0) + 1
+        dist["oracle_only"] += 1 if case.get("oracle_only") else 0
         if fails:
             oracle_fail.append(len(done) - 1)
     for ix in (0, len(done) // 2, len(done) - 1):
@@ -1072,10 +1238,13 @@ def run(rep):
 
     th = threading.Thread(target=_eval_hist)
     th.start()
-    bad, log = common.eval_cases(rep.workdir, "cases_c07", HEADER, terms, "chk", shard=150)
+    tidx = [i for i, x in enumerate(terms) if x is not None]
+    bad, log = common.eval_cases(rep.workdir, "cases_c07", HEADER, [terms[i] for i in tidx], "chk", shard=150)
+    if bad is not None:
+        bad = [tidx[i] for i in bad]
     th.join()
     hbad, hlog = hres.get("r", (None, "history evaluation did not run"))
-    rep.coverage["correspondence"] = {"suite": "timeout-fault", "cases": len(terms), "distribution": dist,
+    rep.coverage["correspondence"] = {"suite": "timeout-fault", "cases": len(tidx), "oracle_only_cases": len(terms) - len(tidx), "distribution": dist,
                                       "model_disagreements": None if bad is None else len(bad),
                                       "oracle_failures": len(oracle_fail),
                                       "histories": {"suite": "timeout-history", "cases": len(hdone),
@@ -1090,12 +1259,17 @@ def run(rep):
                 "the call); asyncio: channel operation over a decorated read of a scripted or of the real asynctelnet/asyncssh transport "
                 "with the channel limit due first, tasks and blocked reads counted when the call comes back, and on a connection left open "
                 "a following operation (get_prompt / send_input) whose device output must reach it whole; "
+                "limit pairs = every mechanism (signal, thread by class, thread by non-main thread, asyncio over a scripted / the real "
+                "asynctelnet / asyncssh transport) x (timeout_transport < / = / > timeout_ops, >= 1.9 s apart, either one 0, both 0) x "
+                "operation kind and stall point (rotating with the seed; thorough: every operation kind), plus a stall after reads "
+                "that each took 0.1 s: the stalled read must end by min(timeout_transport from ITS start, rest of timeout_ops); "
                 "histories = 2-5 decorated calls (transport read / channel method, own limit incl. 0, own NO_TERMINATE) one after "
                 "the other on ONE transport + channel object, each from the main thread or a fresh non-main thread, both orders, class "
                 "names on both sides of the mechanism split, the device answering / raising / going silent, the connection reopened "
                 "after a timeout closed it; every call judged as if it were the only one; "
                 "non-trivial = the call stalls or runs for a while (history: the thread changes between two calls); distinct = the whole case")
 
+    near = []                  # cases on which model and implementation differ although the oracle is content
     reported = 0
     for ix in oracle_fail:
         case, obs, fails = done[ix]
@@ -1130,11 +1304,12 @@ def run(rep):
             case, obs, fails = done[ix]
             if fails:
                 continue          # already a violation of the property with a concrete replay
+            near.append(case)
             rep.broken.append("correspondence timeout-fault: model differs from implementation on: %s" % case["label"])
             rep.notes.append("disagreement: case=%r observed=%r model=%s" % (
                 case, obs, common.eval_term(rep.workdir, "dis_%d" % ix, HEADER, "let r := model %s in (out r, rst r)" % terms[ix])[-600:]))
     if rep.broken and not rep.violations:
-        _search(rep, rng, dist, 400 if thorough else 90)
+        _search(rep, rng, dist, 400 if thorough else 90, near=near)
 
 
 def replay(path):
@@ -1184,7 +1359,9 @@ MANIFEST = {
             "handler / timer / workers / lock / asyncio tasks as before) - PARTIAL: under the two hypotheses that are the known findings' regions; the full "
             "statement is refuted (thread mechanism + NO_TERMINATE, or a read that close() does not end, hangs in the pool's join; signal over a "
             "decorated read overshoots to timeout_transport); completes_in_time and own_exception_propagates (no interference when the device "
-            "answers); the pinned commit's zeroing of ITIMER_REAL is refuted (fixed in ab1ccc2); async_uncancelled_read_left_running (a decorator "
+            "answers); the pinned commit's zeroing of ITIMER_REAL is refuted (fixed in ab1ccc2); async_transport_limit_alone_fires (asyncio, timeout_ops = 0: a read "
+            "that stalls inside the operation is ended by timeout_transport counted from the start of THAT read, with the read's message, "
+            "transport closed iff NO_TERMINATE is off, state restored); async_uncancelled_read_left_running (a decorator "
             "that does not hand its own cancellation on to the wrapped call - the model's c_cancel = false - leaves the decorated transport read "
             "running whenever the channel limit falls due first: tasks + 1, state NOT restored; the code as it is, asyncio.wait_for, is "
             "c_cancel = true); history_independent (run_hist: any number of decorated calls one after the other on ONE connection object, "
@@ -1205,7 +1382,13 @@ MANIFEST = {
             "asyncio.all_tasks() minus the tasks that existed before (one loop iteration after the call came back), the scripted reads still "
             "blocked at that instant, and - nested limits with the channel limit due first, NO_TERMINATE on - a following get_prompt / "
             "send_input on the connection left open, which must receive every byte the device sends it (none taken by a read issued "
-            "before it) and return its own result. Histories: the REAL decorator on ONE scripted transport object + ONE channel object, "
+            "before it) and return its own result. Nested limits (oracle): a read that stalls inside a channel operation ends with ScrapliTimeout no later "
+            "than min(timeout_transport counted from the start of THAT read, what is left of timeout_ops) + 1 s - for the signal, "
+            "worker-thread (by class name and by non-main thread) and asyncio mechanisms (scripted and real asynctelnet / asyncssh "
+            "transports), pairs timeout_transport < / = / > timeout_ops (>= 1.9 s apart), either one 0, both 0 (then: waits for "
+            "ever), every operation kind, stall points rotating, and after reads that took a while; a model / implementation "
+            "disagreement is followed up by running the disagreeing cases and their neighbours over these pairs under the "
+            "oracle (failing ones are reported with their replay). Histories: the REAL decorator on ONE scripted transport object + ONE channel object, "
             "2-5 calls (transport.read / decorated channel method, limit 0 / 0.05-0.1 s, device answers / raises / goes silent) issued "
             "alternately from the main thread and from fresh non-main threads in both orders, class names on both sides of the "
             "mechanism split, the connection reopened after a timeout closed it; every call is judged by the oracle as if it were the "
@@ -1214,13 +1397,19 @@ MANIFEST = {
             "thread other than the caller's - is the one that applies to THAT call's thread) and compared with run_hist by vm_compute. "
             "OBSERVED ONLY (partial): wall-clock latency (<= limit + 1 s), real signal delivery, real thread scheduling, and that closing a real "
             "transport ends a blocked read (real Telnet over a loopback socket - fixed in 9660fae - and the real system transport over a pty).",
-    "note": "Trusted: Coq kernel + vm_compute; the hand model coq/model/Timeout.v (tied by the correspondence run only: ~200 cases + ~30 "
-            "histories (~100 calls) quick, ~1100 + ~170 histories "
+    "note": "Trusted: Coq kernel + vm_compute; the hand model coq/model/Timeout.v (tied by the correspondence run only: ~235 cases + ~30 "
+            "histories (~100 calls) quick, ~1260 + ~170 histories "
             "thorough, all stall points of 5 channel operations, timeouts 0 / 0.05-0.3 s / fractional, the mechanism induced by class name, "
             "non-main thread, windows flag); gen/gen_timeout.py (ast reading of decorators.py is syntactic); scripted transports and fakes under "
             "the real transports; CPython signal/threading/asyncio are modelled, not verified. Model assumptions stated as hypotheses, not axioms: "
             "reads answered before the stall return in less than timeout_transport; the previous SIGALRM handler is the user's. Ties between the "
-            "two limits are resolved as the outer one firing (generators keep >= 1 s between them). The model's asyncio task count is the number of wrapped reads left behind when the call comes back (compared with "
+            "two limits are resolved as the outer one firing (the random generators keep >= 1 s between them; the limit-pair cases "
+            "with timeout_transport = timeout_ops are compared with the model under asyncio, where the outer timer is armed first, "
+            "are the known signal region under the signal mechanism, and are ORACLE-ONLY under the thread mechanism, where the "
+            "two waits expire in two threads and which message wins is a race - outcome class, time, transport and thread state are "
+            "still judged). The bound min(timeout_transport from the stalled read, rest of timeout_ops) is what C07_timeout_fires "
+            "proves (fire_at) for timeout_ops > 0; for timeout_ops = 0 with only timeout_transport on, C07_async_transport_limit_alone_fires "
+            "proves it for asyncio, the signal and thread mechanisms have no general theorem there: model by correspondence + oracle only. The model's asyncio task count is the number of wrapped reads left behind when the call comes back (compared with "
             "the larger of the two observations: new tasks after one loop iteration, scripted reads still blocked at return); of the "
             "following operation the model only predicts that it runs, returns and leaves tasks / lock / transport as they were - WHICH read "
             "receives WHICH device bytes (the swallowed-output observation) and the value the following operation returns are oracle-only. "
